@@ -38,7 +38,16 @@ def run_family(ck, pid, tagged, label, signature=None, binary=None, flaky_is_vio
                 ck.reject(f"{pid}:nondeterministic:{tag.split(':')[0]}", f"{r['src']!r}: two evaluations differ: {r['observed']} vs {a['events']} {a['end']}",
                           {"src": r["src"], "run_a": r["observed"], "run_b": {"ev": a["events"], "end": a["end"]}})
                 continue
-            raise pvlib.Broken(f"flaky observation for {r['src']!r}")
+            # not alone - but after the programs the same worker process had evaluated before it?
+            allreqs = [{"id": pid2, "src": panlang.program_src(body2)} for pid2, body2 in progs]
+            h = pvlib.history_confirm(allreqs, rid, label=f"{pid} history confirm")
+            if not h or h["events"] != r["observed"]["ev"] or h["end"] != r["observed"]["end"]:
+                raise pvlib.Broken(f"flaky observation for {r['src']!r}")
+            sig = (signature(tag, r) if signature else f"{pid}:{tag.split(':')[0]}:{first_diff(r['observed'], r.get('predicted'))}") + ":after-history"
+            ck.reject(sig, f"{r['src']!r}: observed {r['observed']} after other programs had been evaluated in the same process (alone: {a['events']} {a['end']}); "
+                           f"the specification prescribes {r.get('predicted')}",
+                      {"src": r["src"], "observed": r["observed"], "alone": {"ev": a["events"], "end": a["end"]}, "predicted": r.get("predicted"), "family": tag})
+            continue
         sig = signature(tag, r) if signature else f"{pid}:{tag.split(':')[0]}:{first_diff(r['observed'], r.get('predicted'))}"
         ck.reject(sig, f"{r['src']!r}: observed {r['observed']} but the specification prescribes {r.get('predicted')}",
                   {"src": r["src"], "observed": r["observed"], "predicted": r.get("predicted"), "family": tag})
